@@ -425,6 +425,28 @@ Proof.
     replace (r [+] p) with (p [+] r) by ring. assumption.
 Qed.
 
+(* a zero precision or recall gives a zero score in ANY field, whatever x / 0 is (0 * 1/(p+r)) *)
+Theorem f1_zero p r : p = rO \/ r = rO -> f1_score ops p r = rO.
+Proof. intros H. unfold f1_score. rewrite div_def. destruct H as [-> | ->]; ring. Qed.
+
+(* the named-dimension route stated directly: entry (i, j) is the population covariance of the
+   two selected feature vectors (rows when the feature dimension is the first one, columns when
+   it is the second) *)
+Theorem cov_tensor_entry m r c n0 n1 : wf_mat m r c -> 0 < r -> 0 < c -> n0 <> n1 ->
+  (exists C, covariance ops (n0, n1) m n0 = Ok ((name_i, N.of_nat r), (name_j, N.of_nat r), C) /\
+     forall i j, i < r -> j < r -> entry ops C i j = cov_spec ops (row_iter m i) (row_iter m j)) /\
+  (exists C, covariance ops (n0, n1) m n1 = Ok ((name_i, N.of_nat c), (name_j, N.of_nat c), C) /\
+     forall i j, i < c -> j < c ->
+       entry ops C i j = cov_spec ops (column_iter ops m i) (column_iter ops m j)).
+Proof.
+  intros Hwf Hr Hc Hne.
+  destruct (cov_columns_correct m r c Hwf Hr) as [C1 [E1 [_ H1]]].
+  destruct (cov_rows_correct m r c Hwf Hr) as [C2 [E2 [_ H2]]]. split.
+  - exists C2. rewrite cov_named_first, E2. cbn [omap]. rewrite (mrows_wf _ _ _ Hwf). auto.
+  - exists C1. rewrite cov_named_second by assumption. rewrite E1. cbn [omap].
+    rewrite (mcols_wf _ _ _ Hwf Hr). auto.
+Qed.
+
 End FieldStats.
 
 (* ================================================================================== *)
@@ -620,6 +642,224 @@ Proof.
                isum ops (map (fun z => nexp' (z [-] mx)) (x :: l))).
   { f_equal. rewrite map_map. apply map_ext. exact E. }
   rewrite Ed. rewrite map_map. apply map_ext. intros y. now rewrite E.
+Qed.
+
+(* ---- session 3: the shift IS the maximum; the documented formula; order both ways; f1 ---- *)
+(* a <= b is written ~ b < a *)
+Lemma nlt_trans a b c : ~ b [<] a -> ~ c [<] b -> ~ c [<] a.
+Proof.
+  intros Hab Hbc Hca. destruct (of_total ops lt OF b c) as [H | [H | H]].
+  - apply Hab. exact (of_trans ops lt OF _ _ _ H Hca).
+  - subst c. now apply Hab.
+  - now apply Hbc.
+Qed.
+
+Lemma nlt_antisym a b : ~ a [<] b -> ~ b [<] a -> a = b.
+Proof. intros H1 H2. destruct (of_total ops lt OF a b) as [H | [H | H]]; tauto. Qed.
+
+Lemma max_step_cases x y :
+  (max_step ops x y = x \/ max_step ops x y = y) /\
+  ~ max_step ops x y [<] x /\ ~ max_step ops x y [<] y.
+Proof.
+  unfold max_step. destruct (nltb ops y x) eqn:E.
+  - apply (of_ltb ops lt OF) in E. split; [now left|]. split; [apply (of_irrefl ops lt OF)|].
+    intros H. exact (of_irrefl ops lt OF _ (of_trans ops lt OF _ _ _ E H)).
+  - split; [now right|]. split; [|apply (of_irrefl ops lt OF)].
+    intros H. apply (of_ltb ops lt OF) in H. congruence.
+Qed.
+
+Lemma fold_max_spec l : forall x,
+  In (fold_left (max_step ops) l x) (x :: l) /\
+  forall z, In z (x :: l) -> ~ fold_left (max_step ops) l x [<] z.
+Proof.
+  induction l as [|y l IH]; intros x; cbn [fold_left].
+  - split; [now left|]. intros z [<-|[]]. apply (of_irrefl ops lt OF).
+  - destruct (IH (max_step ops x y)) as [Hin Hub].
+    destruct (max_step_cases x y) as [Hc [Hx Hy]]. split.
+    + destruct Hin as [Hin|Hin]; [|right; now right].
+      rewrite <- Hin. destruct Hc as [-> | ->]; [now left | right; now left].
+    + assert (Hm : ~ fold_left (max_step ops) l (max_step ops x y) [<] max_step ops x y)
+        by (apply Hub; now left).
+      intros z [<-|[<-|Hz]].
+      * exact (nlt_trans _ _ _ Hx Hm).
+      * exact (nlt_trans _ _ _ Hy Hm).
+      * apply Hub. now right.
+Qed.
+
+(* the value subtracted before exponentiation is THE maximum of the inputs: an element of the
+   list that no element exceeds (unique with that property); softmax is the quotient written
+   with that shift; consequently no exponent is positive and one of them is zero *)
+Theorem softmax_shift_is_max l : l <> [] ->
+  exists mx, max_by ops l = Some mx /\ In mx l /\ (forall x, In x l -> ~ mx [<] x) /\
+    (forall m, In m l -> (forall x, In x l -> ~ m [<] x) -> m = mx) /\
+    softmax ops l =
+      map (fun x => nexp' (x [-] mx) [/] sumR ops (map (fun y => nexp' (y [-] mx)) l)) l /\
+    (forall x, In x l -> ~ rO [<] x [-] mx) /\
+    (exists x, In x l /\ x [-] mx = rO).
+Proof.
+  destruct l as [|x l]; [congruence|]. intros _.
+  destruct (fold_max_spec l x) as [Hin Hub]. set (mx := fold_left (max_step ops) l x) in *.
+  exists mx. split; [reflexivity|]. split; [exact Hin|]. split; [exact Hub|].
+  split; [|split; [|split]].
+  - intros m Hm Hmub. apply nlt_antisym; [apply Hmub; exact Hin | apply Hub; exact Hm].
+  - rewrite softmax_cons. fold mx. now rewrite (isum_spec ops Fth).
+  - intros z Hz H. apply (Hub z Hz). apply (of_add ops lt OF _ _ mx) in H.
+    replace (rO [+] mx) with mx in H by ring. replace (z [-] mx [+] mx) with z in H by ring. exact H.
+  - exists mx. split; [exact Hin | ring].
+Qed.
+
+(* the documented formula  softmax(z)[i] = e^z_i / sum_j e^z_j : equal to the shifted computation
+   as soon as exp turns differences into quotients (true of the real exponential) *)
+Theorem softmax_textbook :
+  (forall a b, nexp' (a [-] b) = nexp' a [/] nexp' b) ->
+  forall l, softmax ops l = map (fun x => nexp' x [/] sumR ops (map nexp' l)) l.
+Proof.
+  intros Hexp l. destruct l as [|x0 l0]; [reflexivity|].
+  destruct (softmax_unfold x0 l0) as [-> Hd]. set (l := x0 :: l0) in *.
+  set (mx := fold_left (max_step ops) l0 x0) in *.
+  assert (HE : nexp' mx <> rO).
+  { intros E. apply (lt_neq _ _ (of_exp_pos ops lt OF mx)). now symmetry. }
+  assert (HS : sumR ops (map nexp' l) <> rO).
+  { intros E. assert (Hp : rO [<] sumR ops (map nexp' l)).
+    { apply sum_pos; [unfold l; cbn [map]; congruence|]. apply Forall_forall. intros y Hy.
+      apply in_map_iff in Hy. destruct Hy as [z [<- _]]. apply (of_exp_pos ops lt OF). }
+    apply (lt_neq _ _ Hp). now symmetry. }
+  assert (Hsum : sumR ops (map (fun y => nexp' (y [-] mx)) l) = sumR ops (map nexp' l) [/] nexp' mx).
+  { rewrite <- (sumR_map_div ops Fth nexp' (nexp' mx) l). f_equal. apply map_ext. intros y. apply Hexp. }
+  apply map_ext. intros y. unfold soft_g. rewrite Hsum, Hexp. field. split; assumption.
+Qed.
+
+(* order relations are preserved in BOTH directions: strict order, ties, non-strict order *)
+Theorem softmax_order_iff l i j : i < length l -> j < length l ->
+  let x k := nth k l rO in let s k := nth k (softmax ops l) rO in
+  (x i [<] x j <-> s i [<] s j) /\ (x i = x j <-> s i = s j) /\ (~ x j [<] x i <-> ~ s j [<] s i).
+Proof.
+  intros Hi Hj x s.
+  destruct (softmax_order_preserving l i j Hi Hj) as [Hlt Heq].
+  destruct (softmax_order_preserving l j i Hj Hi) as [Hgt _].
+  fold (x i) (x j) (s i) (s j) in Hlt, Heq, Hgt.
+  assert (Irr := of_irrefl ops lt OF). assert (Tr := of_trans ops lt OF).
+  split; [|split].
+  - split; [exact Hlt|]. intros Hs.
+    destruct (of_total ops lt OF (x i) (x j)) as [H | [H | H]]; [exact H | |]; exfalso.
+    + apply Heq in H. rewrite H in Hs. exact (Irr _ Hs).
+    + apply Hgt in H. exact (Irr _ (Tr _ _ _ Hs H)).
+  - split; [exact Heq|]. intros Hs.
+    destruct (of_total ops lt OF (x i) (x j)) as [H | [H | H]]; [exfalso | exact H | exfalso].
+    + apply Hlt in H. rewrite Hs in H. exact (Irr _ H).
+    + apply Hgt in H. rewrite Hs in H. exact (Irr _ H).
+  - split; intros Hn Hc; apply Hn.
+    + destruct (of_total ops lt OF (x j) (x i)) as [H | [H | H]]; [exact H | |]; exfalso.
+      * symmetry in H. apply Heq in H. rewrite H in Hc. exact (Irr _ Hc).
+      * apply Hlt in H. exact (Irr _ (Tr _ _ _ Hc H)).
+    + now apply Hgt.
+Qed.
+
+(* ---- stability: with the maximum as shift every intermediate quantity is bounded ---- *)
+Lemma nlt_cases a b : ~ b [<] a -> a [<] b \/ a = b.
+Proof. intros H. destruct (of_total ops lt OF a b) as [H1|[H1|H1]]; auto. contradiction. Qed.
+
+Lemma lt_nlt a b : a [<] b -> ~ b [<] a.
+Proof. intros H H'. exact (of_irrefl ops lt OF _ (of_trans ops lt OF _ _ _ H H')). Qed.
+
+Lemma add_lt_l a b c : a [<] b -> c [+] a [<] c [+] b.
+Proof.
+  intros H. apply (of_add ops lt OF _ _ c) in H.
+  replace (c [+] a) with (a [+] c) by ring. replace (c [+] b) with (b [+] c) by ring. exact H.
+Qed.
+
+(* a <= b -> c <= d -> a + c <= b + d *)
+Lemma le_add a b c d : ~ b [<] a -> ~ d [<] c -> ~ (b [+] d) [<] (a [+] c).
+Proof.
+  intros H1 H2.
+  destruct (nlt_cases _ _ H1) as [Hab | ->]; destruct (nlt_cases _ _ H2) as [Hcd | ->].
+  - apply lt_nlt. apply (of_trans ops lt OF _ (b [+] c));
+      [apply (of_add ops lt OF); exact Hab | apply add_lt_l; exact Hcd].
+  - apply lt_nlt. apply (of_add ops lt OF). exact Hab.
+  - apply lt_nlt. apply add_lt_l. exact Hcd.
+  - apply (of_irrefl ops lt OF).
+Qed.
+
+Lemma sum_nonneg l : Forall (fun y => rO [<] y) l -> ~ sumR ops l [<] rO.
+Proof.
+  induction l as [|a l IH]; intros Hall; [apply (of_irrefl ops lt OF)|].
+  inversion Hall as [|? ? Ha Hl]; subst.
+  pose proof (le_add rO a rO (sumR ops l) (lt_nlt _ _ Ha) (IH Hl)) as H.
+  replace (rO [+] rO) with rO in H by ring. exact H.
+Qed.
+
+Lemma sum_ge_member l : Forall (fun y => rO [<] y) l -> forall y, In y l -> ~ sumR ops l [<] y.
+Proof.
+  induction l as [|a l IH]; intros Hall y Hin; [destruct Hin|].
+  inversion Hall as [|? ? Ha Hl]; subst.
+  change (sumR ops (a :: l)) with (a [+] sumR ops l). destruct Hin as [<- | Hin].
+  - pose proof (le_add a a rO (sumR ops l) (of_irrefl ops lt OF a) (sum_nonneg l Hl)) as H.
+    replace (a [+] rO) with a in H by ring. exact H.
+  - pose proof (le_add rO a y (sumR ops l) (lt_nlt _ _ Ha) (IH Hl y Hin)) as H.
+    replace (rO [+] y) with y in H by ring. exact H.
+Qed.
+
+Lemma sum_le_count l : (forall y, In y l -> ~ rI [<] y) -> ~ natR ops (length l) [<] sumR ops l.
+Proof.
+  induction l as [|a l IH]; intros Hall; [apply (of_irrefl ops lt OF)|].
+  change (sumR ops (a :: l)) with (a [+] sumR ops l). cbn [length natR].
+  pose proof (le_add a rI (sumR ops l) (natR ops (length l)) (Hall a (or_introl eq_refl))
+                     (IH (fun y Hy => Hall y (or_intror Hy)))) as H.
+  replace (rI [+] natR ops (length l)) with (natR ops (length l) [+] rI) in H by ring. exact H.
+Qed.
+
+(* with exp 0 = 1: every exponential softmax evaluates lies in (0, 1] and their sum (the
+   denominator) in [1, N] — nothing can overflow and the denominator cannot vanish, however large
+   the inputs are.  (A softmax that subtracts anything smaller than the maximum loses the upper
+   bounds; one that subtracts anything larger loses the lower bound 1 of the denominator.) *)
+Theorem softmax_intermediates_bounded : nexp' rO = rI ->
+  forall l, l <> [] ->
+  exists mx, max_by ops l = Some mx /\
+    (forall x, In x l -> rO [<] nexp' (x [-] mx) /\ ~ rI [<] nexp' (x [-] mx)) /\
+    ~ sumR ops (map (fun y => nexp' (y [-] mx)) l) [<] rI /\
+    ~ natR ops (length l) [<] sumR ops (map (fun y => nexp' (y [-] mx)) l).
+Proof.
+  intros Hexp0 l Hne.
+  destruct (softmax_shift_is_max l Hne) as (mx & Hmax & Hin & Hub & _ & _ & Hnonpos & (x0 & Hx0 & Hzero)).
+  exists mx. split; [exact Hmax|].
+  assert (Hterm : forall x, In x l -> rO [<] nexp' (x [-] mx) /\ ~ rI [<] nexp' (x [-] mx)).
+  { intros x Hx. split; [apply (of_exp_pos ops lt OF)|].
+    destruct (nlt_cases _ _ (Hnonpos x Hx)) as [Hneg | Heq].
+    - rewrite <- Hexp0. apply lt_nlt. now apply (of_exp_mono ops lt OF).
+    - rewrite Heq, Hexp0. apply (of_irrefl ops lt OF). }
+  split; [exact Hterm|]. split.
+  - rewrite <- Hexp0, <- Hzero. apply sum_ge_member.
+    + apply Forall_forall. intros y Hy. apply in_map_iff in Hy. destruct Hy as [z [<- _]].
+      apply (of_exp_pos ops lt OF).
+    + apply in_map_iff. exists x0. auto.
+  - rewrite <- (map_length (fun y => nexp' (y [-] mx)) l). apply sum_le_count.
+    intros y Hy. apply in_map_iff in Hy. destruct Hy as [z [<- Hz]]. now apply Hterm.
+Qed.
+
+(* f1 on the whole unit square (any non-negative p, r): the harmonic mean 2 / (1/p + 1/r) when
+   both are positive; zero as soon as one of them is zero — INCLUDING p = r = 0, the one point
+   with p + r = 0, where the harmonic mean has no value and the quotient 0 / 0 of the formula is
+   whatever the element type makes of it: 0 in every field with total division (0 * anything),
+   hence for Rat and Fp; NaN for IEEE floats, which are not a field *)
+Theorem f1_on_nonnegatives p r : ~ p [<] rO -> ~ r [<] rO ->
+  (rO [<] p -> rO [<] r ->
+     f1_score ops p r = (rI [+] rI) [/] (rI [/] p [+] rI [/] r)) /\
+  (p = rO \/ r = rO -> f1_score ops p r = rO) /\
+  (p [+] r = rO -> p = rO /\ r = rO).
+Proof.
+  intros Hp Hr. split; [|split].
+  - intros Hp0 Hr0. destruct (f1_harmonic ops Fth p r) as [_ H]. apply H.
+    + intros E. apply (lt_neq _ _ Hp0). now symmetry.
+    + intros E. apply (lt_neq _ _ Hr0). now symmetry.
+    + intros E. apply (lt_neq _ _ (add_pos _ _ Hp0 Hr0)). now symmetry.
+  - intros H. unfold f1_score. rewrite (div_def ops Fth). destruct H as [-> | ->]; ring.
+  - intros Hs.
+    assert (Hp' : p = rO \/ rO [<] p) by (destruct (of_total ops lt OF rO p) as [H|[H|H]]; auto; tauto).
+    assert (Hr' : r = rO \/ rO [<] r) by (destruct (of_total ops lt OF rO r) as [H|[H|H]]; auto; tauto).
+    destruct Hp' as [-> | Hp0]; destruct Hr' as [-> | Hr0]; [auto | | |]; exfalso.
+    + apply (lt_neq _ _ Hr0). rewrite <- Hs. ring.
+    + apply (lt_neq _ _ Hp0). rewrite <- Hs. ring.
+    + apply (lt_neq _ _ (add_pos _ _ Hp0 Hr0)). now symmetry.
 Qed.
 
 End OrderedSoftmax.
